@@ -250,6 +250,26 @@ macro_rules! forward_de {
     };
 }
 
+/// A newtype struct presented as a sequence of exactly one element.
+struct OneElement<'a, 'de> {
+    de: &'a mut SimDe<'de>,
+    done: bool,
+}
+
+impl<'de, 'a> de::SeqAccess<'de> for OneElement<'a, 'de> {
+    type Error = SimSerdeError;
+    fn next_element_seed<T: de::DeserializeSeed<'de>>(&mut self, seed: T) -> Result<Option<T::Value>, SimSerdeError> {
+        if self.done {
+            return Ok(None);
+        }
+        self.done = true;
+        seed.deserialize(&mut *self.de).map(Some)
+    }
+    fn size_hint(&self) -> Option<usize> {
+        Some(if self.done { 0 } else { 1 })
+    }
+}
+
 impl<'de, 'a> de::Deserializer<'de> for &'a mut SimDe<'de> {
     type Error = SimSerdeError;
     fn is_human_readable(&self) -> bool {
@@ -284,7 +304,13 @@ impl<'de, 'a> de::Deserializer<'de> for &'a mut SimDe<'de> {
         self.deserialize_any(visitor)
     }
     fn deserialize_newtype_struct<V: Visitor<'de>>(self, _: &'static str, visitor: V) -> Result<V::Value, SimSerdeError> {
-        visitor.visit_newtype_struct(self)
+        // both presentations are legal (serde's derived visitors accept either): the owned-delivery flavour of this
+        // format hands a newtype struct over as a sequence of one element, the others transparently
+        if self.bytes_style == Delivery::Owned {
+            visitor.visit_seq(OneElement { de: self, done: false })
+        } else {
+            visitor.visit_newtype_struct(self)
+        }
     }
     fn deserialize_tuple<V: Visitor<'de>>(self, _: usize, visitor: V) -> Result<V::Value, SimSerdeError> {
         self.deserialize_any(visitor)
